@@ -125,4 +125,33 @@ theorem jthCombination_ok (l n j : Nat) (hn : 0 < n) :
     jthCombination l n j = .ok (digitsLsb n l j).reverse := by
   simp [jthCombination, Nat.ne_of_gt hn]
 
+theorem jthCombination_range' (l n j : Nat) (hn : 0 < n) :
+    ∃ w, jthCombination l n j = .ok w ∧ IsWord n l w := by
+  refine ⟨_, jthCombination_ok l n j hn, ?_, ?_⟩
+  · simp [digitsLsb_length]
+  · intro x hx
+    exact digitsLsb_lt n l j hn x (List.mem_reverse.mp hx)
+
+theorem jthCombination_inj' (l n j₁ j₂ : Nat) (hn : 0 < n) (h₁ : j₁ < n ^ l) (h₂ : j₂ < n ^ l)
+    (h : jthCombination l n j₁ = jthCombination l n j₂) : j₁ = j₂ := by
+  rw [jthCombination_ok l n j₁ hn, jthCombination_ok l n j₂ hn] at h
+  have h' : digitsLsb n l j₁ = digitsLsb n l j₂ := List.reverse_inj.mp (Except.ok.inj h)
+  rw [← hornerN_digitsLsb n l j₁ hn h₁, ← hornerN_digitsLsb n l j₂ hn h₂, h']
+
+theorem jthCombination_surj' (l n : Nat) (w : List Nat) (hw : IsWord n l w) :
+    ∃ j, j < n ^ l ∧ jthCombination l n j = .ok w := by
+  obtain ⟨hlen, hlt⟩ := hw
+  have hds : ∀ x ∈ w.reverse, x < n := fun x hx => hlt x (List.mem_reverse.mp hx)
+  obtain ⟨h1, h2⟩ := digitsLsb_hornerN n w.reverse hds
+  rw [List.length_reverse, hlen] at h1 h2
+  refine ⟨hornerN n w.reverse, h1, ?_⟩
+  unfold jthCombination
+  rw [h2, List.reverse_reverse]
+  have : ¬ (l > 0 ∧ n = 0) := by
+    rintro ⟨hl, rfl⟩
+    cases w with
+    | nil => simp at hlen; omega
+    | cons x w => exact absurd (hlt x (by simp)) (by omega)
+  simp [this]
+
 end SPModel.Comb
